@@ -8,8 +8,9 @@ META = {
     'bounds': {
         'quick': 'all well-formed skeletons of <=5 items over {el, el*R, el/, >, +, ^, (, ), )*R}, R in 1..3 symbolic '
                  '(one count for elements, one for groups), selfClosingStyle html/xhtml/xml, format off and on; '
+                 'deep chains: 6 elements joined by every sequence of {>, +, ^, ^^, ^^^, ^^^^} (plain, inside a group, inside a repeated group below a parent); '
                  'implicit names: 17 parent contexts x 12 templates (below a parent, and at the top level after a sibling/group/climb)',
-        'thorough': 'the same for <=7 items',
+        'thorough': 'the same for <=7 items; chains of 7 elements',
     },
     'outside_claim': ['a child operator applied to a group `(..)>x` (not defined by the property)',
                       'skeletons with more items than the bound', 'repeat counts > 3 (C02 covers the counter kernel)',
@@ -327,6 +328,68 @@ def mk_implicit(ti):
             'functions': ['emmet.markup.implicit_tag.resolve_implicit_tag', 'ELEMENT_MAP', 'output_stream.is_inline']}
 
 
+# ------------------------------------------------------------------ C01-c deep operator chains
+def mk_chain(S, wrap, first_op, fmt=False):
+    """S elements x1..xS joined by S-1 solver-chosen operators: 0 '>' | 1 '+' | 2..5 '^' x1..x4.  `wrap`: 0 plain,
+    1 the chain sits in a group that is followed by a sibling, 2 the chain sits in a repeated group below a parent."""
+    from vf.pipe import expand_injected, make_config
+    user = {'options': {'output.format': fmt, 'output.indent': '\x01', 'output.newline': '\x02'}}
+    NOP = 6
+
+    def run(ops, wrong=False):
+        items, parts = [], []
+        for i in range(S):
+            name = 'x%d' % (i + 1)
+            items.append(('el', name, None, False))
+            parts.append(name)
+            if i < S - 1:
+                o = ops[i]
+                if o == 0:
+                    items.append('>'); parts.append('>')
+                elif o == 1:
+                    items.append('+'); parts.append('+')
+                else:
+                    items += ['^'] * (o - 1); parts.append('^' * (o - 1))
+        if wrap == 1:
+            items = ['('] + items + [(')', None), '+', ('el', 'y1', None, False)]
+            abbr = '(' + ''.join(parts) + ')+y1'
+        elif wrap == 2:
+            items = [('el', 'y0', None, False), '>', '('] + items + [(')', 2), '+', ('el', 'y1', None, False)]
+            abbr = 'y0>(' + ''.join(parts) + ')*2+y1'
+        else:
+            abbr = ''.join(parts)
+        expected = ref_render(ref_build(items), '')
+        if wrong:
+            expected = expected + '<x1></x1>'
+        out = expand_injected(abbr, make_config(user), lambda toks: None)
+        if fmt:
+            out = out.replace('\x01', '').replace('\x02', '')
+        return True if out == expected else 'tree_differs'
+
+    def harness(wrong):
+        def h(o2: int, o3: int, o4: int, o5: int, o6: int, o7: int):
+            ops = [first_op]
+            rest = [o2, o3, o4, o5, o6, o7]
+            for o in rest[:S - 2]:
+                if not (0 <= o < NOP):
+                    return 'skip'
+                ops.append(o)
+            for o in rest[S - 2:]:
+                if o != 0:
+                    return 'skip'
+            return run(ops, wrong)
+        return h
+    z = dict(o2=0, o3=0, o4=0, o5=0, o6=0, o7=0)
+    w1 = dict(z)
+    w2 = dict(z)
+    if S >= 4:
+        w2.update(o2=0, o3=3)
+    return {'fn': harness(False), 'twin': harness(True), 'witnesses': [w1, w2],
+            'assumptions': ['%d elements x1..x%d joined by operators chosen by the solver from {>, +, ^, ^^, ^^^, ^^^^}; the first operator is '
+                            'kind %d; wrap=%d (0 plain, 1 `(chain)+y1`, 2 `y0>(chain)*2+y1`); format=%s' % (S, S, first_op, wrap, fmt)],
+            'functions': ['abbreviation.parser.statements (context stack of > + ^)', 'convert.*', 'format.html.element']}
+
+
 def jobs(tier):
     q = tier == 'quick'
     K = 5 if q else 7
@@ -340,6 +403,14 @@ def jobs(tier):
                                'vf.props.c01:mk_structure', dict(K=K, style=style, fmt=fmt, first=first), shape='H',
                                bound='<=%d items' % K, budget=900 if q else 3000,
                                weight=(8 if first in (EL, GO) else 3) * 100))
+    S = 6 if q else 7
+    for wrap in (0, 1, 2):
+        for fo in range(6):
+            if q and wrap and fo not in (0, 1, 3):
+                continue
+            out.append(Job('C01-c/chain/S=%d,wrap=%d,op1=%d' % (S, wrap, fo), 'vf.props.c01:mk_chain',
+                           dict(S=S, wrap=wrap, first_op=fo, fmt=(wrap == 2)), shape='H', bound='%d elements, every operator sequence' % S,
+                           budget=900 if q else 3000, weight=300))
     for ti in range(len(IMPL_TEMPLATES) + len(TOP_TEMPLATES)):
         out.append(Job('C01-b/implicit/%s' % (IMPL_TEMPLATES + TOP_TEMPLATES)[ti], 'vf.props.c01:mk_implicit', dict(ti=ti), shape='H',
                        bound='17 parent contexts, r<=3', budget=600, weight=50))
